@@ -3538,7 +3538,6 @@ static size_t ZSTDv06_decompressFrame(ZSTDv06_DCtx* dctx,
         {
         case bt_compressed:
             decodedSize = ZSTDv06_decompressBlock_internal(dctx, op, oend-op, ip, cBlockSize);
-            if (!ZSTDv06_isError(decodedSize) && decodedSize > ZSTDv06_BLOCKSIZE_MAX) return ERROR(corruption_detected);   /* ZSTD_decompressBound() counts on it */
             break;
         case bt_raw :
             decodedSize = ZSTDv06_copyRawBlock(op, oend-op, ip, cBlockSize);
@@ -3556,6 +3555,7 @@ static size_t ZSTDv06_decompressFrame(ZSTDv06_DCtx* dctx,
         if (cBlockSize == 0) break;   /* bt_end */
 
         if (ZSTDv06_isError(decodedSize)) return decodedSize;
+        if (decodedSize > ZSTDv06_BLOCKSIZE_MAX) return ERROR(corruption_detected);   /* no block regenerates more than that, whatever its type */
         op += decodedSize;
         ip += cBlockSize;
         remainingSize -= cBlockSize;
@@ -3724,7 +3724,6 @@ size_t ZSTDv06_decompressContinue(ZSTDv06_DCtx* dctx, void* dst, size_t dstCapac
             {
             case bt_compressed:
                 rSize = ZSTDv06_decompressBlock_internal(dctx, dst, dstCapacity, src, srcSize);
-                if (!ZSTDv06_isError(rSize) && rSize > ZSTDv06_BLOCKSIZE_MAX) return ERROR(corruption_detected);   /* as the single-call decoder */
                 break;
             case bt_raw :
                 rSize = ZSTDv06_copyRawBlock(dst, dstCapacity, src, srcSize);
@@ -3741,6 +3740,7 @@ size_t ZSTDv06_decompressContinue(ZSTDv06_DCtx* dctx, void* dst, size_t dstCapac
             dctx->stage = ZSTDds_decodeBlockHeader;
             dctx->expected = ZSTDv06_blockHeaderSize;
             if (ZSTDv06_isError(rSize)) return rSize;
+            if (rSize > ZSTDv06_BLOCKSIZE_MAX) return ERROR(corruption_detected);   /* as the single-call decoder */
             dctx->previousDstEnd = (char*)dst + rSize;
             return rSize;
         }
